@@ -61,7 +61,20 @@ pub struct EngineInfo {
     pub design_ref: &'static str,
 }
 
+/// One build/environment configuration a check runs under.
+#[derive(Clone, Debug)]
+pub struct Config {
+    pub name: &'static str,
+    /// worker executable (None = this executable)
+    pub exe: Option<&'static str>,
+    /// this configuration executes run indices [0, runs * num / den)
+    pub share: (u64, u64),
+}
+
 pub trait Engine: Sync + Send {
+    fn configurations(&self) -> Vec<Config> {
+        vec![Config { name: "default", exe: None, share: (1, 1) }]
+    }
     fn id(&self) -> &'static str;
     fn info(&self) -> EngineInfo;
     /// Number of runs of this tier (fixed, so the exploration is a function of the seed alone).
